@@ -94,9 +94,9 @@ func genRepr(t *rapid.T) ReprCase {
 		}
 	}
 	if rapid.IntRange(0, 5).Draw(t, "unk") == 0 {
-		c.Unknown = Unknown{Kind: rapid.SampledFrom([]string{"interpreter", "guardInterpreter", "syntax", "branchType"}).Draw(t, "unkk"),
+		c.Unknown = Unknown{Kind: rapid.SampledFrom([]string{"interpreter", "guardInterpreter", "syntax", "branchType", "malformedPattern"}).Draw(t, "unkk"),
 			Node: rapid.SampledFrom(a.NodeNames()).Draw(t, "unkn")}
-		if c.Unknown.Kind != "syntax" && rapid.Bool().Draw(t, "near") {
+		if c.Unknown.Kind != "syntax" && c.Unknown.Kind != "malformedPattern" && rapid.Bool().Draw(t, "near") {
 			c.Unknown.Near = rapid.IntRange(1, 4).Draw(t, "nearKind")
 		}
 	}
@@ -139,6 +139,14 @@ func applyUnknown(s *core.Spec, u Unknown) bool {
 			}
 		}
 		return false
+	case "malformedPattern":
+		// JSON pattern syntax and a pattern that is not JSON
+		if n == nil || n.Branches == nil || len(n.Branches.Branches) == 0 {
+			return false
+		}
+		s.PatternSyntax = "json"
+		n.Branches.Branches[len(n.Branches.Branches)-1].Pattern = `{"a":`
+		return true
 	case "branchType":
 		if n == nil || n.Branches == nil {
 			return false
@@ -290,12 +298,12 @@ func buildVariants(c ReprCase, known map[string]bool) ([]variant, bool) {
 	}
 	// JSON pattern syntax
 	s, _ = base()
-	if c.Unknown.Kind != "syntax" {
+	if c.Unknown.Kind != "syntax" && c.Unknown.Kind != "malformedPattern" {
 		jsonSyntax(s)
 	}
 	add("go-json-syntax", s, nil)
 	s, _ = base()
-	if c.Unknown.Kind != "syntax" {
+	if c.Unknown.Kind != "syntax" && c.Unknown.Kind != "malformedPattern" {
 		jsonSyntax(s)
 	}
 	jsj, _ := json.Marshal(s)
@@ -452,6 +460,23 @@ func checkRepr(c ReprCase) (v ev.Verdict) {
 				if got, _ := traceOf(x.spec, c); got != canon {
 					v.Failf("variant %s: the %s name %q is accepted at compile time but the machine does not behave like the canonical spelling's:\n%s\nvs\n%s", x.name, c.Unknown.Kind, nearMiss("<name>", c.Unknown.Near), ev.Trunc(got, 600), ev.Trunc(canon, 600))
 					return
+				}
+			}
+		}
+		// a rejection is final: compiling the rejected specification
+		// again must not succeed
+		if c.Unknown.Near == 0 {
+			for _, x := range vs {
+				if x.err != nil && x.spec != nil {
+					var err2 error
+					if p := trap(func() { err2 = compileWith(x.spec, sm.Interpreters()) }); p != "" {
+						v.Failf("variant %s: compiling the rejected specification again panicked: %s", x.name, p)
+						return
+					}
+					if err2 == nil {
+						v.Failf("variant %s: rejected at first (%v), but compiling the same specification again was accepted", x.name, x.err)
+						return
+					}
 				}
 			}
 		}
